@@ -159,7 +159,7 @@ func (h *history) race(b *chainkit.Blk, mode string, plans [][]*utx) bool {
 
 func runRacing(c *ev.Case, net *chainkit.Net, g *chainkit.Genesis, base string) {
 	rng := c.Rand
-	u := genUniverse(rng, g)
+	u := genUniverse(rng, net, g)
 	tr := net.NewTree(g)
 	if err := growTree(rng, tr, u, rng.Range(8, 14), rng.Range(40, 75)); err != nil {
 		c.Inconclusive("case %d: tree generator failed: %v", c.Index, err)
@@ -243,7 +243,7 @@ func TestC23Racing(t *testing.T) {
 	r := ev.Start(t, "C23")
 	defer r.Finish()
 	net := chainkit.Configure(chainkit.Params{Epoch: 4, Fed: 4, Local: -1, VotePending: 3, NKeys: 4})
-	g := net.NewGenesis(8, 0)
+	g := net.NewGenesis(10, 0)
 	base := t.TempDir()
 	n := r.N(24, 600)
 	r.Cases("racing-rd", n, func(c *ev.Case) {
